@@ -817,7 +817,22 @@ pub fn run_c03(ctx: &Ctx, rep: &mut Report) {
         let bufsize = *rng.pick(&[None, Some(1024usize), Some(5000)]);
         let mut mon = RulesMonitor { every: 1, n: 0 };
         let mix = *rng.pick(&[0, 0, 25]);
-        let info = drive(ctx, case, rng, rep, DriveOpts { version, bufsize, max_steps, cfg, handle_mix_pct: mix, max_handles: 3, start: None }, &mut mon);
+        // one history in five goes on from a well-formed file of another writer (red nodes,
+        // directory gaps, permuted sectors): what the library makes of it must be
+        // well-formed too
+        let mut start = None;
+        let mut version = version;
+        let mut cfg = cfg;
+        if rng.chance(1, 5) {
+            if let Some((s, v)) = foreign_start(rng) {
+                start = Some(s);
+                version = v;
+                cfg.names = crate::synth::SYNTH_NAMES;
+                cfg.refusal_pct = 5;
+                rep.count("start.foreign_layout");
+            }
+        }
+        let info = drive(ctx, case, rng, rep, DriveOpts { version, bufsize, max_steps, cfg, handle_mix_pct: mix, max_handles: 3, start }, &mut mon);
         if info.steps.len() >= 5 && info.saw_removal {
             rep.nontrivial(info.hash);
         }
